@@ -51,7 +51,7 @@ L = {
          'without mutators / compound assignments changes no pre-existing object other than scope dictionaries). Correspondence: builtin x argument matrix; snapshot monitor.',
          'programs with mutators: a step changes only top scopes and objects some value mentions (InvSep.step_sep; per entry mod_push ... mod_setitem_with_op).'),
  'C14': ('Theorems: ops_refine_dict and ops_refine_list (every operation sequence refines the mathematical dict / Python list spec, other objects untouched), one key '
-         'cast everywhere, failing reads are ParserErrors, slice_is_contiguous_segment (xs[a:b] for all bounds), slice_with_positive_step_takes_every_kth / step_slice_read_returns_new_list (xs[::k], every k > 0: ceil(n/k) elements, the j-th is xs[j*k], a new object), slice_with_negative_step_takes_every_kth_from_the_end (xs[::-k]: the j-th is xs[n-1-j*k]; k = 1 reverses), a zero step is refused. Correspondence: op sequences exhaustive to depth 2/3 + random, step slices in 40% of the random sequences.', 'the copies made by c[k] = v composed with the list refinement: separate theorems (C12), not one statement.'),
+         'cast everywhere, failing reads are ParserErrors, slice_is_contiguous_segment (xs[a:b] for all bounds), slice_with_positive_step_takes_every_kth / step_slice_read_returns_new_list (xs[::k], every k > 0: ceil(n/k) elements, the j-th is xs[j*k], a new object), slice_with_negative_step_takes_every_kth_from_the_end (xs[::-k]: the j-th is xs[n-1-j*k]; k = 1 reverses), a zero step is refused; for EVERY slice (any bounds, any step): slice_positions_inside_none_dropped + slice_elements_are_the_selected_positions (positions inside the list, one element per position, the j-th element is the one at the j-th position). Correspondence: op sequences exhaustive to depth 2/3 + random, step slices in 40% of the random sequences.', 'the copies made by c[k] = v composed with the list refinement: separate theorems (C12), not one statement.'),
  'C15': ('Theorems: token-level insignificance (closer_irrelevant, blank statements, trailing separators / commas) through parse_iff; character level: '
          'extra_blank_between_tokens / comment_at_line_end / line_break_in_brackets _same_program (whole texts: an insertion at any point between two lexer steps changes neither tokens nor tree), parser_reads_kind_and_value. Critical ties: '
          'lexer rules, grammar. Correspondence + metamorphic monitor: plain vs decorated renderings incl. bare number / prefix-operator receivers.',
